@@ -1,7 +1,7 @@
 SPECIFICATION FairSpec
 CONSTANTS
   NQ = 2
-  Ranges = {"lo", "full", "hi"}
+  Ranges = {"0_4", "1_3", "0_2", "3_4"}
   Phases = {"head", "ooo", "blocks"}
   EmitMode = "none"
   Record = FALSE
